@@ -370,6 +370,14 @@ def loopUntilGate (cfg : Cfg) (hold : Bool) : Nat → St → List Act
 def tickPrefix (x : Sim) : List Act :=
   [.advance 100, .wScan] ++ repeatActs (.wStep 0 :: settleActs x.hold x.s.n) (2 * x.s.n + 2) ++ [.loopFire]
 
+/-- First half of a tick: the clock moves, the TTL watcher handles what has expired. -/
+def watcherActs (x : Sim) : List Act :=
+  [.advance 100, .wScan] ++ repeatActs (.wStep 0 :: settleActs x.hold x.s.n) (2 * x.s.n + 2)
+
+/-- Second half of a tick: the loop's timer fires and the loop runs one pass. -/
+def loopActs (x : Sim) : List Act :=
+  .loopFire :: repeatActs (.loopStep 0 :: settleActs x.hold x.s.n) (6 * (x.s.heap.length + 1) + 2)
+
 /-- The schedule of one macro-operation started in `x`. -/
 def opActs (cfg : Cfg) (x : Sim) : Op → List Act
   | .arrive p => [.arrive p, .register x.s.n, .push x.s.n]
@@ -414,6 +422,35 @@ def schedule (cfg : Cfg) : Sim → List Op → List Act
   | x, op :: rest => opActs cfg x op ++ schedule cfg (applyOp cfg x op) rest
 
 def runOps (cfg : Cfg) (x : Sim) (ops : List Op) : Sim := ops.foldl (applyOp cfg) x
+
+/-! ### Two Queue processors on one quota (two flows with the same `quota_id`)
+
+Each processor has its own shared-queue object (`memoryState.NewQueue` returns a fresh queue per call),
+its own watch list, loop and TTL watcher: two independent instances of the model; the only thing they
+share is the quota, whose state is handed from one to the other between their steps (no invariant of
+the model mentions the quota's state, so every theorem holds of each instance whatever the other does
+to the quota). -/
+
+structure Duo where
+  a : Sim
+  b : Sim
+  q : Quota := {}      -- the state of the quota both draw on
+
+/-- Both clocks move, both watchers run. -/
+def Duo.watch (cfgA cfgB : Cfg) (d : Duo) : Duo :=
+  { d with a := { d.a with s := run cfgA d.a.s (watcherActs d.a) },
+           b := { d.b with s := run cfgB d.b.s (watcherActs d.b) } }
+
+/-- One pass of processor A's loop on the quota as B left it (and vice versa). -/
+def Duo.passA (cfgA : Cfg) (d : Duo) : Duo :=
+  let a0 : Sim := { d.a with s := { d.a.s with q := d.q } }
+  let s' := run cfgA a0.s (loopActs a0)
+  { d with a := { a0 with s := s' }, q := s'.q }
+
+def Duo.passB (cfgB : Cfg) (d : Duo) : Duo :=
+  let b0 : Sim := { d.b with s := { d.b.s with q := d.q } }
+  let s' := run cfgB b0.s (loopActs b0)
+  { d with b := { b0 with s := s' }, q := s'.q }
 
 /-! ### The shared queue alone (`memoryQueue`), driven directly by the harness (level L1) -/
 
